@@ -1,5 +1,5 @@
-import Toq.Core.Idx
-import Toq.Core.ND
-import Toq.Proofs.Idx
-import Toq.Model.Perms
 import Toq.Properties.C01
+import Toq.Properties.C02
+import Toq.Properties.C03
+import Toq.Properties.C10
+import Toq.Properties.C18
